@@ -16,14 +16,20 @@ The thread based timeout of the sync stack (system / telnet transports, windows,
 thread) has its own scenario kind in harness/c14_pool.py: real threads, a transport whose blocked read is
 released by close() after a latency or never, the timeouts observed at the moment the call has ended and
 again once no thread is left in the call's body; model TimeoutRestore.pool_call, whose [joins] parameter
-is read from the source by gen_timeouts (the executor's exit joins the worker)."""
+is read from the source by gen_timeouts (the executor's exit joins the worker).
+
+Calls on DIFFERENT connections that overlap in time (asyncio tasks in one loop, threads) have their own scenario
+kind in harness/c14_overlap.py: 2-3 real drivers with different configured timeouts, per-call overrides, a
+deterministic interleaving through transports that park a call on a read; model TimeoutOverlap (product of the
+connections' automata; where timeout_modifier keeps the saved value - a local of the wrapper call or a slot shared
+by all connections - is read from the source by gen_timeouts)."""
 import asyncio
 import json
 import math
 import os
 import time
 
-from . import c14_pool, common
+from . import c14_overlap, c14_pool, common
 from .simdevice import AsyncScriptedTransport, ScriptedTransport, SimDevice, Starved, make_driver
 
 LEVEL = "proof"
@@ -763,8 +769,9 @@ def case_term(conn, rec):
         z(a[0]), z(a[1]), z(a[2]), outcome_term(rec["outcome"]), common.coq_list(seen))
 
 
-HEADER = """From Verif Require Import TimeoutRestore.
-Definition chk (k : _ + _) : bool := match k with inl a => check_case a | inr b => check_pool_case b end.
+HEADER = """From Verif Require Import TimeoutRestore TimeoutOverlap.
+Definition chk (k : (_ + _) + _) : bool :=
+  match k with inl (inl a) => check_case a | inl (inr b) => check_pool_case b | inr c => check_overlap_case c end.
 """
 
 
@@ -1159,7 +1166,76 @@ def run(rep):
                 rep.sample({"suite": "pool", "path": scen["path"], "driver": scen["kind"], "observed": c14_pool.jsonable_rec(rec)}, limit=7)
     dist["thread_timeout"] = pdist
 
+    # 3c. overlapping calls on different connections (asyncio tasks in one loop / threads, deterministic interleaving)
+    ov_scens = [("overlap", s_) for s_ in c14_overlap.fixed_scenarios(thorough)]
+    for _ in range(240 if thorough else 24):
+        ov_scens.append(("overlap-gen", c14_overlap.gen_planned(rng)))
+    odist = {"scenarios": len(ov_scens), "stack": {}, "connections": {}, "calls": 0, "ops": {}, "outcomes": {}, "driver": {},
+             "calls_overlapping_a_call_on_another_connection": 0, "calls_parked_while_another_connection_ran": 0,
+             "ended_last_of_overlapping_calls_with_override": 0, "distinct_configured_timeout_ops": 0,
+             "ended_by_own_timeout_ops": 0, "modelled": 0, "unmodelled": {}}
+    ov_terms, ov_term_res, ov_failures = [], [], []
+    for label, scen in ov_scens:
+        try:
+            res = c14_overlap.run_scenario(scen)
+        except Exception as e:  # the machinery failed on this scenario: fail closed
+            rep.broken.append("harness failed on a scenario: %s: %r" % (label, e))
+            rep.notes.append(json.dumps(scen)[:1500])
+            continue
+        count(odist["stack"], scen["stack"])
+        count(odist["connections"], str(len(scen["conns"])))
+        odist["distinct_configured_timeout_ops"] += int(len({c["base_ops"] for c in scen["conns"]}) == len(scen["conns"]))
+        ends = {c["id"]: [e["n"] for e in c["events"] if e["t"] == "call_end"][0] for c in res["calls"]}
+        for call in res["calls"]:
+            odist["calls"] += 1
+            count(odist["ops"], call["spec"]["op"])
+            count(odist["outcomes"], call["outcome"])
+            count(odist["driver"], scen["conns"][call["conn"]]["kind"])
+            others = c14_overlap.overlapped(res, call)
+            odist["calls_overlapping_a_call_on_another_connection"] += int(bool(others))
+            parked = any(e["t"] == "parked" for e in call["events"])
+            odist["calls_parked_while_another_connection_ran"] += int(parked and bool(others))
+            if others and call["spec"].get("ov") is not None and all(ends[o_] < ends[call["id"]] for o_ in others):
+                odist["ended_last_of_overlapping_calls_with_override"] += 1
+            if scen["calls"][call["id"]].get("park") is not None and ["timeout", call["id"]] in scen["schedule"]:
+                odist["ended_by_own_timeout_ops"] += int(call["outcome"] == "ScrapliTimeout")
+            rep.case((label, scen["stack"], json.dumps(scen["conns"], sort_keys=True), json.dumps(scen["calls"], sort_keys=True),
+                      json.dumps(scen["schedule"]), call["id"]), nontrivial=bool(others) or call["outcome"] != "Ok")
+        bad = c14_overlap.oracle(res)
+        if bad:
+            ov_failures.append((label, scen, res, bad))
+        term, why = (c14_overlap.case_term(res) if "saved_local" in info else (None, "overlap: no generated facts"))
+        if term is None:
+            count(odist["unmodelled"], why)
+        else:
+            odist["modelled"] += 1
+            ov_terms.append("(%s, %s" % ("SlotLocal" if info["saved_local"] else "SlotShared", term[1:]))
+            ov_term_res.append((label, scen, res))
+        if label == "overlap":
+            rep.sample({"suite": "overlap", "stack": scen["stack"], "schedule": scen["schedule"],
+                        "observed": c14_overlap.jsonable(res)}, limit=9)
+    dist["overlapping_calls"] = odist
+
     # 4. the property oracle's verdicts
+    ov_reported = set()
+    for label, scen, res, bad in ov_failures:
+        sig = c14_overlap.signature(res, bad[0])
+        if sig in ov_reported or len([x for x in ov_reported if x.split(":")[2] == scen["stack"]]) >= 2:
+            continue
+        ov_reported.add(sig)
+        cid, ci, what = bad[0]
+        if cid is None:
+            head = "connection %d of %d" % (ci, len(scen["conns"]))
+        else:
+            call = res["calls"][cid]
+            head = "%s(%s) on connection %d of %d ended with %s" % (
+                call["spec"]["op"], json.dumps({x: call["spec"][x] for x in call["spec"] if x in ("ov", "rd")}), ci,
+                len(scen["conns"]), call["outcome"])
+        rep.violation("overlapping calls on different connections (%s, %s drivers, schedule %s): %s: %s" % (
+            "asyncio tasks in one loop" if scen["stack"] == "async" else "threads", scen["conns"][ci]["kind"],
+            json.dumps(scen["schedule"]), head, "; ".join(w for _, _, ws in bad for w in ws)),
+            {"suite": "overlap", "scenario": scen, "observed": c14_overlap.jsonable(res),
+             "rerun": "./check C14 --replay <this file>"}, signature=sig)
     pool_reported = set()
     for label, scen, k, rec, bad in pool_failures:
         sig = c14_pool.signature(rec)
@@ -1192,12 +1268,15 @@ def run(rep):
             break
     # 5. model vs implementation
     badix, log = common.eval_cases(rep.workdir, "cases_c14", HEADER,
-                                   ["(inl %s)" % t for t in terms] + ["(inr %s)" % t for t in pool_terms], "chk")
-    pool_badix = None if badix is None else [i - len(terms) for i in badix if i >= len(terms)]
+                                   ["(inl (inl %s))" % t for t in terms] + ["(inl (inr %s))" % t for t in pool_terms]
+                                   + ["(inr %s)" % t for t in ov_terms], "chk")
+    n_tp = len(terms) + len(pool_terms)
+    ov_badix = None if badix is None else [i - n_tp for i in badix if i >= n_tp]
+    pool_badix = None if badix is None else [i - len(terms) for i in badix if len(terms) <= i < n_tp]
     badix = None if badix is None else [i for i in badix if i < len(terms)]
-    rep.coverage["correspondence"] = {"suite": "timeout-restore", "cases": len(terms) + len(pool_terms), "distribution": dist,
-                                      "model_disagreements": None if badix is None else len(badix) + len(pool_badix),
-                                      "oracle_failures": len(failures) + len(pool_failures)}
+    rep.coverage["correspondence"] = {"suite": "timeout-restore", "cases": n_tp + len(ov_terms), "distribution": dist,
+                                      "model_disagreements": None if badix is None else len(badix) + len(pool_badix) + len(ov_badix),
+                                      "oracle_failures": len(failures) + len(pool_failures) + len(ov_failures)}
     rep.coverage["generated_from"] = common.source_hashes(SOURCES)
     rep.coverage["generated"] = info
     rep.rule = ("scenario = fresh real driver (GenericDriver / IOSXEDriver / NetworkDriver, sync and asyncio, transport with and without "
@@ -1212,7 +1291,20 @@ def run(rep):
                 "never, timeout_ops (per call or configured) expiring inside send_and_read's / channel.send_input_and_read's timed read, before it, "
                 "in send_command / send_interactive, the timeouts read when the call has ended and again after every thread left in the call's body "
                 "has finished, with or without the user assigning both timeouts in between; "
+                "plus overlapping calls: 2-3 connections (GenericDriver / IOSXEDriver; asyncio drivers as tasks of one loop, sync drivers in "
+                "threads) with pairwise different configured timeout_ops, 1-2 calls each (send_command(s), send_interactive, send_and_read, "
+                "send_configs; override absent / equal / other), a schedule of start / release steps: a call parks at its n-th transport read "
+                "while calls on the other connections start, park, finish; the parked read then returns data, raises (ScrapliTimeout, "
+                "connection error, RuntimeError, KeyboardInterrupt|CancelledError) or is ended by the call's own timeout_ops (real timer); "
+                "fixed shapes nested / staggered / three deep / different operations / bystander without override + seeded random interleavings; "
                 "non-trivial = the call changed a timeout at some point or did not end with Ok; distinct = (scenario, call)")
+    for ix in (ov_badix or [])[:4]:
+        label, scen, res = ov_term_res[ix]
+        rep.notes.append("model/implementation disagreement (overlapping calls): %s" % json.dumps(
+            {"scenario": scen, "observed": c14_overlap.jsonable(res), "term": ov_terms[ix]})[:4000])
+        if not c14_overlap.oracle(res):
+            rep.broken.append("correspondence overlapping-calls: model differs from implementation (%s, %d connections)" % (
+                scen["stack"], len(scen["conns"])))
     for ix in (pool_badix or [])[:4]:
         label, scen, k, rec = pool_term_recs[ix]
         rep.notes.append("model/implementation disagreement (thread based timeout): %s" % json.dumps(
@@ -1275,6 +1367,28 @@ def replay_pool(scen):
     return rc
 
 
+def replay_overlap(scen):
+    res = c14_overlap.run_scenario(scen)
+    bad = c14_overlap.oracle(res)
+    print("%d connections (%s), schedule %s" % (len(scen["conns"]), "asyncio tasks in one loop" if scen["stack"] == "async" else "threads",
+                                                json.dumps(scen["schedule"])))
+    for i, c in enumerate(res["conns"]):
+        print("connection %d (%s): configured timeout_ops / timeout_transport %r" % (i, c["kind"], c["configured"]))
+    for call in res["calls"]:
+        print("call %d on connection %d: %s  outcome=%s  in flight meanwhile on other connections: %r" % (
+            call["id"], call["conn"], json.dumps(call["spec"]), call["outcome"], c14_overlap.overlapped(res, call)))
+        print("   before %r  during %r  when the call ended %r" % (
+            call["before"], [s_ for _, s_ in c14_overlap.dedup([(e["phase"], e["state"]) for e in call["events"] if e["t"] == "io"])],
+            call["at_end"]))
+    for i, c in enumerate(res["conns"]):
+        print("connection %d after every call has ended: %r" % (i, c["final"]))
+    for cid, ci, what in bad:
+        print("   property FAILS (%s): %s" % ("connection %d" % ci if cid is None else "call %d" % cid, "; ".join(what)))
+    if not bad:
+        print("property holds on this input")
+    return 1 if bad else 0
+
+
 def replay(path):
     r = json.load(open(path))
     scen = r.get("scenario")
@@ -1284,6 +1398,8 @@ def replay(path):
     common.setup_env()
     if scen.get("suite") == "pool":
         return replay_pool(scen)
+    if scen.get("suite") == "overlap":
+        return replay_overlap(scen)
     recs = run_scenario(scen)
     rc = 0
     for k, rec in enumerate(recs):
@@ -1320,7 +1436,22 @@ MANIFEST = {
             "executor of decorators.py is a context manager / shut down with wait=True in a finally covering every raise and return; nothing else there "
             "starts a thread). Correspondence + oracle on real threads (harness/c14_pool.py): scripted transport whose blocked read is released by "
             "close() after a latency or never; values read by the calling thread when the call has ended, and again after every thread still in "
-            "the call's body has finished (optionally after the user re-assigned both timeouts).",
+            "the call's body has finished (optionally after the user re-assigned both timeouts). "
+            "Overlapping calls on DIFFERENT connections (timeout_modifier wraps a method: one wrapper for every connection): model TimeoutOverlap.v - a "
+            "world of any number of connections with disjoint TimeoutRestore states, the frame of the call in flight on each, and a schedule "
+            "(global sequence of wrapper entry / I/O / timed-read entry, exit / wrapper exit events) as input; with the saved value a local of the "
+            "wrapper call: interleaving_preserves_restore (EVERY schedule, EVERY number of connections, at EVERY moment a connection that is not "
+            "inside a call has its own timeouts), interleaving_is_a_product (a connection's part of the interleaved run = its own events run alone), "
+            "own_override_in_effect (its I/O sees its override whatever the others do); with a slot shared between connections (nonlocal of the "
+            "decorator, module / class attribute) the statement is refuted by vm_compute witnesses (nested and staggered calls of two connections: "
+            "the call that started first ends with the other connection's timeout_ops; shared_slot_not_a_product), while without overlap either slot "
+            "restores (shared_slot_sequential_restores: why sequences on one connection cannot tell). Which slot the source has is a generated "
+            "obligation (gen_saved_in_frame / gen_saved_local: at each of the six swap sites the restored value is a name bound once, in the "
+            "function's own scope, from the timeout attribute, not nonlocal/global; nothing restored in a finally from anywhere else). "
+            "Correspondence + oracle on real drivers (harness/c14_overlap.py): 2-3 connections with different configured timeouts, asyncio drivers "
+            "as tasks of one event loop and sync drivers in threads, interleaved deterministically by scripted transports that park a call on a "
+            "read (no sleeps); the model is run on the schedule as observed and must reproduce every connection's observations and final state; "
+            "the oracle checks per call own-values-restored-at-its-end and own-override-in-effect, per connection own configured values at the end.",
     "note": "partial: the runtime is observed, not verified - the model takes the call's control flow (which read raised what, which callback matched) "
             "from the observed run and proves the bookkeeping; that scrapli's Python follows the model is checked by the correspondence run only. "
             "Trusted: Coq kernel + vm_compute; hand model coq/model/TimeoutRestore.v; gen/gen_timeouts.py (ast reading); SimDevice and the scripted "
@@ -1329,9 +1460,19 @@ MANIFEST = {
             "real-time timeouts: a timeout that hits a worker which is not yet blocked in its read is judged by the oracle only; a call is taken to hang "
             "when it has not ended 0.4 s after its timeout_ops - it is then released and judged at its real end). In the model of the thread mechanism "
             "where the worker is when the time is up and whether its read wakes are inputs taken from the observed run; calls on that path that do not "
-            "time out are oracle-only (same code as the modelled operations). Not modelled: values nan/inf (oracle only), "
+            "time out are oracle-only (same code as the modelled operations). "
+            "Overlapping calls on different connections: the interleaving (which event of which connection happens when) is an input taken from "
+            "the observed run; the harness chooses it (one call per connection at a time - one channel -, a call yields to the others only at a "
+            "transport read, which is where asyncio tasks and blocked threads of the real stacks interleave); preemption of a thread between two "
+            "bytecodes of the wrapper itself is not explored by the scenarios (the model's events of one connection are atomic; the theorem covers "
+            "every order of them). The entry of the decorated method is not observed directly: it is placed at the instrumented _send_command "
+            "entry, resp. at the call's first event outside acquire_priv. Trusted for this suite also: asyncio's task scheduling / threading "
+            "primitives, gen_timeouts.analyse_saved (ast); a parked call ended by its own timeout_ops uses a real 80 ms timer. "
+            "Not modelled: values nan/inf (oracle only), "
             "a callback that sets the timeouts itself (excluded by the theorem's hypothesis on callbacks).",
     "technique": "Coq proof (case analysis over outcomes, induction over call sequences / read_callback stages, invariant session timeout = transport timeout) "
                  "+ vm_compute correspondence against both real driver stacks with fault injection at every read/write + before/after oracle "
-                 "+ real-thread scenarios on the thread based timeout (end-of-call and after-the-call observers) + ast obligation that the executor joins its worker",
+                 "+ real-thread scenarios on the thread based timeout (end-of-call and after-the-call observers) + ast obligation that the executor joins its worker "
+                 "+ multi-connection interleaving model (invariant over schedules, projection/product lemma, vm_compute refutation of a shared slot) with "
+                 "deterministic overlapping-call scenarios on asyncio tasks and threads (parking transports) + ast obligation that restored values are frame locals",
 }
